@@ -16,11 +16,19 @@ impl vstd::std_specs::cmp::PartialEqSpecImpl for OpenMlsGroupId {
 }
 pub enum ValidationError { WrongEpoch, CannotDecryptOwnMessage, Other }
 pub enum ProcessMessageError { ValidationError(ValidationError), Other }
+// TLS decoding of the MLS message (uninterpreted)
+pub uninterp spec fn mls_bytes_decode_ok(b: Seq<u8>) -> bool;      // both decoding steps succeed
+pub uninterp spec fn mls_bytes_content_type(b: Seq<u8>) -> ContentType;
 impl MlsMessageIn {
+    pub uninterp spec fn src(&self) -> Seq<u8>;
     #[verifier::external_body]
-    pub fn tls_deserialize_exact(bytes: &[u8]) -> (r: Result<MlsMessageIn, tls_codec::Error>) { unimplemented!() }
+    pub fn tls_deserialize_exact(bytes: &[u8]) -> (r: Result<MlsMessageIn, tls_codec::Error>)
+        ensures r is Ok ==> r->Ok_0.src() == bytes@, r is Err ==> !mls_bytes_decode_ok(bytes@)
+    { unimplemented!() }
     #[verifier::external_body]
-    pub fn try_into_protocol_message(self) -> (r: Result<ProtocolMessage, ProtocolMessageError>) { unimplemented!() }
+    pub fn try_into_protocol_message(self) -> (r: Result<ProtocolMessage, ProtocolMessageError>)
+        ensures r is Ok ==> r->Ok_0.ct() == mls_bytes_content_type(self.src()), r is Err ==> !mls_bytes_decode_ok(self.src())
+    { unimplemented!() }
 }
 impl ProtocolMessage {
     pub uninterp spec fn gid(&self) -> GroupId;
